@@ -1057,6 +1057,14 @@ func (t *FnTrans) lookupAt(b *ssa.BasicBlock, idx int, st *HeapState, subst map[
 						}
 						return t.load(st, l, "true"), true
 					}
+					// the definition of a variable that lives in memory is recorded
+					// with its initial VALUE; the variable's current content is in
+					// its cell (it may have been assigned since)
+					if av := t.addrOfVar(d.Object()); av != nil {
+						if l, ok := t.locOf(t.val(av), av.Type()); ok {
+							return t.load(st, l, "true"), true
+						}
+					}
 					if sv, ok := subst[d.X]; ok {
 						return sv, true
 					}
@@ -1124,4 +1132,25 @@ func (t *FnTrans) loopDepth(b *ssa.BasicBlock) int {
 		}
 	}
 	return n
+}
+
+// addrOfVar: the address (allocation) of a local variable that lives in
+// memory, found through a DebugRef that refers to the variable as an lvalue.
+func (t *FnTrans) addrOfVar(obj types.Object) ssa.Value {
+	if obj == nil {
+		return nil
+	}
+	if t.varAddr == nil {
+		t.varAddr = map[types.Object]ssa.Value{}
+		for _, b := range t.fn.Blocks {
+			for _, in := range b.Instrs {
+				if d, ok := in.(*ssa.DebugRef); ok && d.IsAddr && d.Object() != nil {
+					if _, isAlloc := d.X.(*ssa.Alloc); isAlloc {
+						t.varAddr[d.Object()] = d.X
+					}
+				}
+			}
+		}
+	}
+	return t.varAddr[obj]
 }
